@@ -126,7 +126,10 @@ class FactoryRun:
                 await self.factory.start_task(self.make_body(h), f"t{h}")
                 self.log("probeFailed", h, "start_task() returned normally although the task failed before started()")
             except Exception:  # noqa: BLE001 - the task's own exception, or anyio's complaint after the handler swallowed it
-                self.log("startFailed", h)
+                # (only if the task did run and fail: after an exception has taken the factory down start_task() fails
+                # for a reason of its own, which is outside the statement)
+                if any(e["l"][:2] == ["taskEnded", h] for e in self.trace):
+                    self.log("startFailed", h)
             return
         handle = await self.factory.start_task(self.make_body(h), f"t{h}")
         self.handles[h] = handle
